@@ -88,6 +88,30 @@ def worker_rules(chk, prog, w, spawn_body):
         wp = core.must_pass(w, [tgt], recv + rets, through_nodes=task_calls, after_from=False)
         chk.ob("R2.at_least_once", fn, "Message::Function arm -> next recv/exit passes the task call", wp is None,
                "a received task can be dropped without being run", path=wp, where=w.where(s))
+    # ---- R2c: between taking a task off the queue and calling it nothing can panic: a panic there (an overload report that divides by a
+    # count of zero, an index, an unwrap) unwinds past the task, which is dropped without having run, and costs a worker restart
+    from .. import panics as _pn
+    from . import c03 as _c03
+    _allow = _pn.load_allow()
+    region = set()
+    for (s, tgt) in fun_edges:
+        fw = w.reachable([tgt], removed_nodes=set(task_calls))
+        region |= {n for n in fw if any(c in w.reachable([n]) for c in task_calls)}
+    n_sites = 0
+    for st_ in _pn.sites_of(prog, w):
+        if st_.block not in region or st_.block in task_calls:
+            continue
+        n_sites += 1
+        how, why = _pn.try_discharge(prog, st_)
+        if how is None and st_.fingerprint in _allow:
+            ok_, why2_ = _c03.check_allow_cond(prog, st_, _allow[st_.fingerprint], {w.path})
+            if ok_:
+                how, why = "reviewed", f"{_allow[st_.fingerprint]['reason']} [{why2_}]"
+        chk.ob("R2.no_panic_before_run", fn, f"{st_.kind} {core.short(st_.what)} between dequeue and the task call cannot fire", how is not None,
+               f"{st_.kind} {st_.what} can panic after the task was taken off the queue and before it is called ({why or 'no discharge idiom applies'}): "
+               "the task is dropped unrun and the worker is restarted", where=w.where(st_.block))
+    chk.extra["dequeue_to_call_panic_sites"] = n_sites
+    chk.ob("R2.no_panic_before_run", fn, "blocks between the Function arm and the task call examined", len(region) >= 1, f"{len(region)} blocks")
     # (at most once is a typing fact: Task = Box<dyn FnOnce()> is moved into its call; see the thorough-tier witness)
     # ---- R3: queue lock not held while the task runs
     if we:
